@@ -128,7 +128,7 @@ class CrcSummary:
         self.vars = []
 
     def __call__(self, msg):
-        if not self.fold.ok or not isinstance(msg, SymBytes) or len(msg) <= self.thresh:
+        if not self.fold.ok or not isinstance(msg, SymBytes):
             return self.direct(msg)
         f = self.fold
         ks = [self._key(e) for e in msg]
@@ -136,6 +136,15 @@ class CrcSummary:
         for pk, st, _keep in self.summ:
             if len(pk) <= len(ks) and ks[:len(pk)] == pk and (best is None or len(pk) > len(best[0])):
                 best = (pk, st)
+        if (best is None or len(ks) - len(best[0]) > 8) and len(msg) <= self.thresh:
+            # short message: exact fold from the initial state (registered, so that a later extension continues from it exactly)
+            st = f.pre()
+            for e in msg:
+                st = f.step(*st, e)
+                if not isinstance(st, tuple):
+                    st = (st,)
+            self.summ.append((ks, st, list(msg)))
+            return f.post(*st)
         if best is None or len(ks) - len(best[0]) > 8:
             cut = len(ks) - 3
             self.nfresh += 1
